@@ -215,6 +215,20 @@ def run(ctx):
                 os.remove(o)
         n = len(ops)
         vals = [out[(n + 1) * k + n] if len(out) > (n + 1) * k + n else None for k in range(4)]
+        # in this build freed blocks are handed out again at once (no sanitizer quarantine): the outputs of a repetition must equal the outputs of
+        # the first round, and -- for the histories of array calls -- the output of each call made alone in a fresh process
+        H.repeat_diff = None
+        for k in range(1, 4):
+            for j in range(n):
+                a, b = (out[j] if j < len(out) else None), (out[(n + 1) * k + j] if (n + 1) * k + j < len(out) else None)
+                if a != b and H.repeat_diff is None and not ops[j].startswith("memuse"):
+                    H.repeat_diff = (j, k, a, b)
+        if getattr(H, "fresh_check", False):
+            for j, l in enumerate(ops):
+                rc1, o1, e1 = C.run_lines(kvp, [l], env={}, timeout=900)
+                got = out[j] if j < len(out) else None
+                if (o1[0] if o1 else None) != got and H.repeat_diff is None:
+                    H.repeat_diff = (j, 0, o1[0] if o1 else None, got)
         return H, vals
 
     # plus short histories on inputs large enough for the bisecting k-means path (>= 100 sequences), whose allocations the
@@ -234,6 +248,20 @@ def run(ctx):
         recs = gen.family(ctx.rng, "protein", 4, 30)
         f = H.newfile(gen.fasta_text(recs))
         H.ops = [("h_read_nofd 0 %s" % f, [0], None), ("h_read 1 %s" % f, [1], None), ("h_read_nofd 1 %s" % f, [1], None), ("h_free 1", [1], None)]
+        khists.append(H)
+    # calls of the in-memory API one after the other in ONE process, alternating kinds and sizes (an earlier, larger input of the other kind must
+    # not influence what a later call concludes about its own input)
+    for i in range(6 if ctx.quick else 40):
+        H = Hist(3000 + i, sc)
+        H.fresh_check = True
+        H.ops = []
+        for j in range(ctx.rng.randint(3, 5)):
+            kind = ["protein", "dna"][(i + j) % 2]
+            big = (j % 2 == 0)
+            recs = gen.family(ctx.rng, kind, ctx.rng.randint(6, 9) if big else ctx.rng.randint(2, 3), ctx.rng.choice([150, 300]) if big else ctx.rng.choice([12, 30]), spice=False)
+            t = ctx.rng.choice([5, 5, 3 if kind == "protein" else 0])
+            t = gen.fit_type(t, kind, recs)
+            H.ops.append(("kalign_arr %d -1 -1 -1 %d - 0 %s" % (t, ctx.rng.choice([1, 4]), " ".join(q for _, q in recs)), [], None))
         khists.append(H)
     with ThreadPoolExecutor(min(C.NCPU, 8)) as ex:
         ledgers = list(ex.map(ledger, hists + khists))
@@ -272,6 +300,12 @@ def run(ctx):
             ctx.sample(dict(history=[l[:160] for l, _, _ in H.ops[:12]], outputs=out[:12]))
     for H, vals in ledgers:
         ctx.evaluations += 1
+        if getattr(H, "repeat_diff", None):
+            j, k, a, b = H.repeat_diff
+            what = ("op %d gives %r when the history is repeated in the same process (round %d) but %r the first time" % (j, (b or "")[:160], k + 1, (a or "")[:160])) if k else \
+                   ("op %d gives %r inside the history but %r when made alone in a fresh process" % (j, (b or "")[:160], (a or "")[:160]))
+            fails.append((what + " (uninstrumented build: freed memory is reused at once)", dict(history=[l[:2000] for l, _, _ in H.ops], op=H.ops[j][0][:2000])))
+            continue
         try:
             v = [int(x) for x in vals]
         except (TypeError, ValueError):
